@@ -89,6 +89,15 @@ UNITS['U09m'] = dict(
                  'ops well-formedness (indices in range, MergeRight never first) is what merge_deduplicate guarantees (U10 consumes-all / merge-right-is-duplicate)'],
     not_covered=['Combinable<OrderedFloat<f64>> (floating point)'])
 
+UNITS['U19'] = dict(
+    kind='verus', tpl='contracts/U19_select.vx', timeout_s=600,
+    title='row-selection kernels: Filter, NullableFilter, FilterNullable, NullableFilterNullable, IsNull, IsNotNull, Compact, CompactWithNullable, CompactNullable, CompactNullableNullable, NonzeroCompact, NonzeroCompactNullable, Exists (execute bodies)',
+    assumptions=['R6: scratchpad bindings lifted to parameters (A-planner: distinct BufferRefs do not alias)',
+                 'R5: `x > T::zero()` on the planner\'s integer types abstracted to trait Pos { is_pos }, cast_usize to trait GroupIndex',
+                 'R4/R9 verified replacements: vx_resize, vx_zero_bytes (for p in iter_mut { *p = 0 }), vx_div_ceil8',
+                 'FilterNullable*: the output null map has no stray bits beyond the current output length (established by init / previous calls; stated as requires and re-established as ensures)'],
+    not_covered=['NonzeroIndices (generic numeric conversions U::from(index) + offset)', 'combine_null_maps', 'LIKE / regex filters'])
+
 UNITS['U09k'] = dict(
     kind='kani', crate='kani/U09', needs_lock=True,
     title='aggregate.rs / merge_aggregate.rs: SumI64, Count, MaxI64, MinI64 accumulate/combine and Combinable<i64>::combine (complete)',
@@ -156,7 +165,7 @@ PROPS = {
                 level_note='per-partition planning, executor streaming, disk read scheduling and thread count are glue and not covered: the check catches a broken merge/combine primitive, not a broken plan',
                 technique='contract-based deductive verification (Verus + Kani complete harnesses) of extracted functions',
                 assumptions=[], not_covered=['executor stage partitioning / streaming', 'batch_merging::combine plan construction', 'disk read scheduler']),
-    'C04': dict(level='proof', units=['U09k', 'U09v', 'U09m', 'U10', 'U01'],
+    'C04': dict(level='proof', units=['U09k', 'U09v', 'U09m', 'U10', 'U19', 'U01'],
                 level_text='complete Kani proofs of accumulate/combine kernels; Verus proofs of dedup-merge / merge_drop / merge_keep kernels and bitmap primitives',
                 level_note='grouping-key construction, hash-map grouping and the final pass are not covered',
                 technique='contract-based deductive verification (Verus + Kani complete harnesses) of extracted functions',
@@ -166,7 +175,7 @@ PROPS = {
                 level_note='std sort_by/sort_unstable_by, the top-n driver and the planner choice between sort and top-n are not covered',
                 technique='contract-based deductive verification (Verus + Kani) of extracted functions',
                 assumptions=[], not_covered=['SortBy*::execute (std sort)', 'TopN::execute/finalize']),
-    'C03': dict(level='proof', units=['U01', 'U05k', 'U07k', 'U08v'],
+    'C03': dict(level='proof', units=['U01', 'U05k', 'U07k', 'U08v', 'U19'],
                 level_text='complete Kani proofs of comparison kernels and constant translation; Verus proof of null bitmap primitives',
                 level_note='compile_expr glue, LIKE/regex, string dictionary comparisons not covered yet',
                 technique='contract-based deductive verification (Kani complete harnesses + Verus) of extracted / path-included real code',
